@@ -238,7 +238,9 @@ def go_run(test, cases_path, obs_path, timeout=600, race=False, env_extra=None, 
 
 
 def model_run(prop, cases_path, obs_path, timeout=900):
-    rc, out, dt = run([os.path.join(BIN, "driver"), prop, cases_path, obs_path], timeout=timeout)
+    # (the driver recurses over the bytes of large frames: give it all the stack the system allows)
+    rc, out, dt = run(["sh", "-c", 'ulimit -s unlimited 2>/dev/null || ulimit -s 4000000 2>/dev/null; exec "$0" "$@"',
+                       os.path.join(BIN, "driver"), prop, cases_path, obs_path], timeout=timeout)
     return rc, out.splitlines(), dt
 
 
